@@ -24,7 +24,9 @@ Checks per case (oracles from the property statement, computed from devdb.json /
       regexp object in the compiled rulebooks is a compiled pattern; the number of compiled rules is the number of rule
       lines of the rendered text;
   (d) two fresh DefaultRulebookProvider instances (compiler caches cleared in between) give structurally equal rulebooks
-      (regex pattern + flags, functions by qualified name, dicts in order), also equal for the other software versions.
+      (regex pattern + flags, functions by qualified name, dicts in order), also equal for the other software versions;
+      and ONE provider asked for two models of a vendor that render different texts (every ordered pair of one representative
+      per distinct rendered text) answers each like a fresh provider does (no dependence on the load history).
 """
 import hashlib
 import importlib
@@ -535,6 +537,76 @@ def _dup_lines(text):
     return dup
 
 
+def check_load_history(ctx, st, part, nparts):
+    """one provider instance asked for several models of one vendor that render different texts, in both orders: every
+    answer must be structurally equal to the one a fresh provider gives for that model alone"""
+    from annet.annlib.netdev.views.hardware import HardwareView
+    from annet.annlib.rbparser.platform import VENDOR_ALIASES
+    from annet.rulebook import DefaultRulebookProvider
+    by_vendor = {}
+    for c in st["cases"]:
+        if c["soft"] != "":
+            continue
+        try:
+            v = HardwareView(c["model"], "").vendor
+        except Exception:
+            continue
+        if isinstance(v, str) and v in st["reg"] and c["model"] not in by_vendor.setdefault(v, []):
+            by_vendor[v].append(c["model"])
+    for vi, vendor in enumerate(sorted(by_vendor)):
+        if vi % nparts != part:
+            continue
+        # representatives: one model per distinct set of rendered texts
+        reps = {}
+        for model in by_vendor[vendor]:
+            scan = DefaultRulebookProvider()      # a fresh one per model: the signature must not depend on history either
+            sig = []
+            hw = HardwareView(model, "")
+            for ext in ("rul", "order", "deploy"):
+                fname = (VENDOR_ALIASES.get(vendor, vendor) if ext == "rul" else vendor) + "." + ext
+                try:
+                    sig.append(scan._render_rul(fname, hw))
+                except FileNotFoundError:
+                    sig.append(None)
+                except Exception:
+                    sig = None      # reported by check_case
+                    break
+            if sig is not None:
+                reps.setdefault(tuple(sig), model)
+        models = list(reps.values())
+        if len(models) < 2:
+            continue
+        fresh = {}
+        for m in models:
+            try:
+                fresh[m] = DefaultRulebookProvider().get_rulebook(HardwareView(m, ""))
+            except Exception:
+                fresh[m] = None     # reported by check_case
+        for a in models:
+            for b in models:
+                if a == b or fresh[a] is None or fresh[b] is None:
+                    continue
+                ctx.ev += 1
+                ctx.nontrivial.add(hashlib.md5(repr(("history", vendor, a, b)).encode()).hexdigest()[:12])
+                shared = DefaultRulebookProvider()
+                case = dict(vendor=vendor, first=a, then=b)
+                try:
+                    ra = shared.get_rulebook(HardwareView(a, ""))
+                    rb = shared.get_rulebook(HardwareView(b, ""))
+                    ra2 = shared.get_rulebook(HardwareView(a, ""))
+                except Exception as e:
+                    ctx.fail("rulebook-depends-on-load-history:" + vendor, "a shared provider raises for the second model", case,
+                             "a rulebook", "%s: %s" % (type(e).__name__, str(e)[:300]))
+                    continue
+                for (what, got, exp) in (("first model", ra, fresh[a]), ("second model", rb, fresh[b]), ("first model asked again", ra2, fresh[a])):
+                    d = struct_diff(exp, got)
+                    if d:
+                        ctx.fail("rulebook-depends-on-load-history:" + vendor,
+                                 "one provider instance asked for two models of a vendor that take different template branches: the %s gets "
+                                 "another rulebook than from a fresh provider" % what, case, "structurally equal to a fresh provider's rulebook", d)
+                        break
+
+
 def run(tier="quick", seed=0, part=0, nparts=1):
     ctx = Ctx()
     st = _setup()
@@ -565,11 +637,18 @@ def run(tier="quick", seed=0, part=0, nparts=1):
             ctx.fail("exception", "unexpected exception while checking a case", case, "no exception", "%s: %s | %s" % (type(e).__name__, e, traceback.format_exc()[-500:]))
         if part == 0 and len(samples) < 2 and case.get("seq") and case["seq"].count(".") >= 2:
             samples.append(dict(case, true=sorted(".".join(s) for s in ref_true_full(st["db"], case["model"]))))
+    try:
+        check_load_history(ctx, st, part, nparts)
+    except Exception as e:
+        import traceback
+        ctx.fail("exception:load-history", "unexpected exception in the load-history check", dict(part=part), "no exception",
+                 "%s: %s | %s" % (type(e).__name__, e, traceback.format_exc()[-500:]))
     ndev = len({c["model"] for c in allc if c["origin"] == "devdb"})
     rule = ("exhaustive: %d devdb sequences -> %d distinct synthesised models (%d not synthesised), + %d canonical vendor hardware + the empty model, "
             "x %d software versions %r (templates test the version %d times) = %d cases; %d registration orders (all rotations of the "
             "shipped order and of its reverse); non-trivial = a case for which a registered vendor is chosen and its rulebook is loaded; "
-            "distinct by (model, soft). Same scope in both tiers."
+            "distinct by (model, soft). Load history: per vendor, one model per distinct set of rendered texts, every ordered pair through "
+            "one shared provider vs fresh providers. Same scope in both tiers."
             % (len(st["db"]), ndev, len(st["unsynth"]), len(list(st["reg"])), len(SOFTS), SOFTS, len(st["soft_uses"]), len(allc), len(st["regs"])))
     return dict(evaluations=ctx.ev, nontrivial=sorted(ctx.nontrivial), failures=ctx.failures, samples=samples, rule=rule,
                 bound="exhaustive: true (all %d devdb sequences x %d soft shapes, %d vendors x %d registration orders); one synthesised model string per sequence"
